@@ -11,6 +11,7 @@ pub mod c05;
 pub mod c06;
 pub mod c06_socket;
 pub mod c07;
+pub mod c07_socket;
 pub mod c08;
 pub mod c09;
 pub mod c10;
